@@ -18,6 +18,7 @@ def call(ex, st, fn, args, kw, node):
             if feasible(st.pc, sort_of(v.ty).is_none(v.z)): raise Unsupported("len(None) feasible")
             v = opt_payload(v)
         if isinstance(v, UFL): yield st, Sym(INT, v.length); return
+        if isinstance(v, UFDict): yield st, Sym(INT, v.size); return
         if isinstance(v, Sym) and v.ty.kind in ("str", "seqlist"): yield st, Sym(INT, z3.Length(v.z)); return
         if isinstance(v, Sym) and v.ty.kind == "tuple": yield st, len(v.ty.args); return
         yield st, len(v); return
@@ -192,6 +193,12 @@ def method(ex, st, recv, name, args, kw, node=None):
             yield st, Sym(BOOL, z3.PrefixOf(lift(args[0]).z, lift(recv).z)); return
     if type(recv).__name__ == "UFMap" and name == "values":
         yield st, recv.values; return
+    if isinstance(recv, UFDict) and name == "get":
+        kz = lift_to(recv.key_ty, args[0])
+        for s2, b in ex.fork(st, Sym(BOOL, recv.has(kz))):
+            if b: yield s2, ex.ufdict_value(s2, recv, kz)
+            else: yield s2, (args[1] if len(args) > 1 else None)
+        return
     if isinstance(recv, dict) and name == "keys": yield st, list(recv.keys()); return
     if isinstance(recv, dict) and name == "values": yield st, list(recv.values()); return
     if isinstance(recv, dict) and name == "items": yield st, [tuple(kv) for kv in recv.items()]; return
